@@ -13,7 +13,8 @@ CLAIMS = {
              "diffusion weight 1) of all ten step bodies as a polynomial identity in opaque f, g; Roessler's order "
              "conditions for the tableaus actually imported; advertised strong_order <= literature order per "
              "(solver, noise type). The limit dt->0 itself is not decided. Derivative-free Milstein: finite difference at one time, and no O(h^1.5) bias per step (second-order weight of the difference quotient times E[v] vanishes). R02.6: for a generic scalar SDE the two local-error hypotheses of Milstein's fundamental theorem (mean-square local error O(h^(p+1/2)), mean local error O(h^(p+1))) hold at the advertised p for every (solver, noise type, option) scenario, by symbolic stochastic Taylor expansion of the step body."
-             " Every step of a solve is the analysed step (hidden-state probe R13.4: a second step on the same solver object equals a first step); the solver is constructed with the caller's Brownian object itself (R01.6); emitting an output leaves the loop state alone (R12.4, state clauses only).",
+             " Every step of a solve is the analysed step (hidden-state probe R13.4: a second step on the same solver object equals a first step); the solver is constructed with the caller's Brownian object itself (R01.6); emitting an output leaves the loop state alone (R12.4, state clauses only)."
+             ' The fixed-step solve starts with the requested dt and reports [y0] first (R12.3); nothing is kept on the solver or the SDE wrapper between evaluations (R13.1).',
         note="Partial: necessary conditions in general; for scalar SDEs with smooth Lipschitz coefficients R02.6 establishes the hypotheses of the convergence theorem (the theorem itself is cited, not mechanised). All of this concerns grid states: an output time strictly inside a step is the linear interpolant C12 prescribes, whose error is of order sqrt(dt) whatever the solver (reproduced; DESIGN 10.9 observation (x)) -- no check decides or reports that. " + TRUSTED),
     "C02": dict(
         technique="ast formula canonicalisation against textbook formulas; exact rational tableau arithmetic",
@@ -21,7 +22,8 @@ CLAIMS = {
              "opaque F, G, GDG atoms (the property states this equality verbatim); Ito/Stratonovich v-term; weight-1 "
              "Stratonovich condition sum v_i c_i = 1/2 for every RK-type step and derivative-free Milstein; SRK "
              "scheme form and 25 SRI / 8 SRA order conditions in exact rationals. Milstein operator is one Jacobian-vector product per diffusion column (a transposed product only for diagonal noise); derivative-free Milstein carries no O(h^1.5) bias. R02.6: for a generic scalar SDE (d = m = 1, derivatives of f and g symbolic) every step is expanded in (h, dW, U) and agrees with the Ito / Stratonovich Taylor expansion, built from the operators L0, L1, identically up to weight p and in expectation at weight p + 1/2, p the advertised strong order (the property's own two clauses)."
-             ' The expansion is matched by every step, not only the first one of a solver object (R13.4).',
+             ' The expansion is matched by every step, not only the first one of a solver object (R13.4).'
+             ' Nothing is kept on the solver or the SDE wrapper between evaluations (R13.1); the autograd helpers behind the derivative-based Milstein term refuse torch.inference_mode(), where they would return silent zeros (R16.10).',
         note="Partial: the Taylor comparison is decided for scalar SDEs; multi-dimensional non-commutative terms are covered only by the structural rules. " + TRUSTED),
     "C03": dict(
         technique="ast formula canonicalisation (Chen identities of the split and of the aggregation loop); small-model replay of the real tree by abstract interpretation (exact rational times, symbolic noise)",
@@ -30,7 +32,8 @@ CLAIMS = {
              "order (H and A use the loop-carried W); antisymmetry of A; H->U with the query length; zero-length arm "
              "returns fresh zeros; wrappers use an admissible (time map, output map) pair. Tree search cuts every query exactly (integer and near-coincident orderings); zero-length results have the shapes of ordinary ones; split identities also in dyadic mode."
              " Replay of the real tree (exact rational times, symbolic unit normals, nothing mocked): W additivity and Chen's relation for U over triples asked in any order after forward-backward, adaptive-looking and dyadic histories, for cache sizes 0..unbounded, dt hints, plain and dyadic trees; zero-length queries (R03.9). The zero-length shortcut is taken only when the resolved end points coincide, also for queries one tolerance cell long (R03.2 at tolerance scales)."
-             " Replay through the wrappers' own constructors: BrownianTree, BrownianPath, ReverseBrownian are additive, point / interval consistent, repeatable, and the reflection maps (W, U) as Chen's relation prescribes (R03.10); Davie / Foster areas returned after a history are antisymmetric and repeatable after refinement (R03.11).",
+             " Replay through the wrappers' own constructors: BrownianTree, BrownianPath, ReverseBrownian are additive, point / interval consistent, repeatable, and the reflection maps (W, U) as Chen's relation prescribes (R03.10); Davie / Foster areas returned after a history are antisymmetric and repeatable after refinement (R03.11)."
+             ' With a tolerance, the increment returned for raw query times is that of the resolved end points, zero iff they coincide (R03.12, replay).',
         note="Partial: values after arbitrary histories rely on C05's structural rules; floating-point tolerance not "
              "decided. " + TRUSTED),
     "C04": dict(
@@ -49,7 +52,8 @@ CLAIMS = {
              "seeded from a slot; no in-place operation on a tensor that may alias the cache; cache keyed by node "
              "identity."
              ' Replay: every interval asked more than once in (history, probes, history backwards, probes) returns its first answer, for four histories x cache sizes x dt hints x tree modes (R05.8).'
-             ' (W, U, A) with Davie / Foster areas is returned unchanged when asked again after the tree was refined underneath (R03.11).',
+             ' (W, U, A) with Davie / Foster areas is returned unchanged when asked again after the tree was refined underneath (R03.11).'
+             ' The contents of history slots (search hint, query statistics, anything stored per query) do not flow into returned values except through the start-independent tree search (R05.9, taint).',
         note="Assumes (read, not decided) that the interval decomposition does not depend on the search start. "
              + TRUSTED),
     "C06": dict(
@@ -58,7 +62,8 @@ CLAIMS = {
              "no explicit flow into the split point; every stored/compared time is quantised; history-dependent "
              "refinement is disabled in dyadic mode; BrownianTree forwards entropy/tol/pool_size/halfway_tree. Seeds at the point of use are the same whichever sibling's noise is requested first (SeedSequence.spawn modelled as stateful)."
              ' Replay: equal (entropy, options, query sequence) give equal answers, also for an object built in a process where other Brownian objects were used; dyadic mode is independent of the history; another entropy changes the path (R06.10). No state shared between objects (R06.9).'
-             " Through BrownianTree's own constructor the probes' values do not depend on the history (R06.11).",
+             " Through BrownianTree's own constructor the probes' values do not depend on the history (R06.11)."
+             ' Raw queries are queries of their resolved end points (R03.12).',
         note="Partial: 'different entropies give different paths' is statistical and not decided. " + TRUSTED),
     "C07": dict(
         technique="call-graph acyclicity, must-write typestate, interval analysis, small-model path enumeration and replay",
@@ -67,7 +72,8 @@ CLAIMS = {
              "analysis), cache never above cache_size (path enumeration over a small model), sub-tolerance queries "
              "short-circuited on quantised times, default Brownian motion spans the horizon. Every split request is dominated by a strict order on quantised values (no zero-length child, no child equal to its parent). _LRUDict driven through its own methods on a small model (bounds 1..8, three insertion patterns); statistics-driven refinement of the dependency tree is bounded by the query history (never by the length of one query)."
              ' The dyadic descent terminates when the quantised midpoint of a node falls on one of its end points (adversarial quantiser, R07.8); every operation applied to the cache is provided by every cache class the constructor may install (R07.4 protocol).'
-             ' Replay: every query of four histories returns normally and the cache never holds more than cache_size entries, cache sizes 0..45 and unbounded (R07.9).',
+             ' Replay: every query of four histories returns normally and the cache never holds more than cache_size entries, cache sizes 0..45 and unbounded (R07.9).'
+             ' Zero-length query histories never drive the refinement length to zero (R07.7).',
         note="Termination of the trampolined search loops is not decided in general. " + TRUSTED),
     "C08": dict(
         technique="gradient-flow taint over def-use chains; create_graph / no_grad discipline at autograd sites",
@@ -111,7 +117,8 @@ CLAIMS = {
         text="No attribute/global store in any step, integrate, init_extra_solver_state or SDE-wrapper method other "
              "than __init__; integrate returns the carried extra; sdeint uses extra_solver_state verbatim. The value reported at a step end is the solver's state bit for bit (float-exact reduction); fixed-step arguments depend only on the restartable state. The reported outputs are the loop states themselves (list + stack, or an output tensor without a fixed dtype)."
              ' The end-of-call guard absorbs only a remainder of rounding-error size, also far from the origin (R13.7, last-steps model).'
-             " Replay of whole solves with the real steps: [0, 3/8] in two and in three chunks restarted from the returned state and extra solver state gives the one-shot solve's canonical forms (R13.8).",
+             " Replay of whole solves with the real steps: [0, 3/8] in two and in three chunks restarted from the returned state and extra solver state gives the one-shot solve's canonical forms (R13.8)."
+             ' The supplied extra solver state reaches the solve unchanged for every (method, adjoint method) pair of sdeint_adjoint (R13.2).',
         note="Bit identity across chunks additionally needs C05 and float reasoning. " + TRUSTED),
     "C14": dict(
         technique="control-dependence + truth-table of the accept predicate; interval analysis of the controller",
@@ -132,7 +139,8 @@ CLAIMS = {
         text="For each of the 32 subsets of {f,g,f_and_g,g_prod,f_and_g_prod}: every ForwardSDE slot resolves to a "
              "user primitive, a default whose canonical form equals the slot's meaning, or an explicit raise; rename "
              "tables agree position-wise."
-             ' After renaming through check_contract every interface of the resulting SDE evaluates the drift and diffusion the name map designates, also when the class carries combined methods under default names (R16.9); derived operators keep nothing between calls (R13.1).',
+             ' After renaming through check_contract every interface of the resulting SDE evaluates the drift and diffusion the name map designates, also when the class carries combined methods under default names (R16.9); derived operators keep nothing between calls (R13.1).'
+             ' misc.vjp / misc.jvp refuse torch.inference_mode() instead of returning silent zeros (R16.10); the operators inside the steps, through the real ForwardSDE wrapper, agree between a special declaration and its general embedding (R17.1).',
         note="Partial: bit identity between variants and values of autograd-derived operators are not decided. "
              + TRUSTED),
     "C17": dict(
@@ -144,7 +152,8 @@ CLAIMS = {
              "product; Levy-area term -> 0), as a polynomial identity; prod_diagonal(g, v) == prod_default(diag_embed(g), v) "
              "entry by entry on symbolic tensors; noise-type dependent attributes are never read on the solve path; the "
              "default Brownian shape is the same under both declarations."
-             ' BaseSDESolver.integrate around the steps is the same function of the steps under every declaration (R17.5).',
+             ' BaseSDESolver.integrate around the steps is the same function of the steps under every declaration (R17.5).'
+             " The method the validation phase selects is the caller's or the documented default, whatever the Brownian motion supplied (R19.5).",
         note="Partial: decides these necessary conditions, not the floating-point equality of two runs (element-wise "
              "product vs batched mat-vec round differently); the vanishing of the general Levy-area term for "
              "commutative noise is the property's own premise. " + TRUSTED),
@@ -153,7 +162,8 @@ CLAIMS = {
         text="The integrand is 1/2 |g^+(f-h)|^2 in all four sibling implementations; f_and_g_X == (f_X, g_X); the "
              "extra channel has zero diffusion and base functions see only y[:, :-1]; differencing L[i+1]-L[i]."
              ' Off-grid outputs of the log-ratio channel are linear interpolants (R12.4); with adaptive steps the controller must not see the log-ratio channel (R18.7; known finding).'
-             ' parse_return at the index level also for one and two output times (shape (len(ts) - 1, batch) for every len(ts) >= 1).',
+             ' parse_return at the index level also for one and two output times (shape (len(ts) - 1, batch) for every len(ts) >= 1).'
+             ' The solver constructed with logqp=True has the settings of the solver constructed without, also for output times closer than dt (R18.8).',
         note="Partial: non-negativity as a number and solver accuracy are not decided. " + TRUSTED),
     "C19": dict(
         technique="finite-domain evaluation of dispatch + constructor guards; error-type and dominance lint",
